@@ -1285,6 +1285,9 @@ class Interp:
     def bi_same_storage(self, st, f, args, kw, node):
         return self.identical(args[0], args[1])
 
+    def bi_same_obj(self, st, f, args, kw, node):
+        return self.identical(args[0], args[1])
+
     def bi_SUM(self, st, f, args, kw, node):
         """SUM(lst, 'field-expr-name'): spec fold; uninterpreted per (heap snapshot, list)"""
         raise Unsupported("SUM is provided by the lemma library")
@@ -1887,7 +1890,7 @@ class Interp:
             fr = Frame(con.qualname, {})
             fr.module = con.relpath
             try:
-                fr.fnode = src.func_node(con.relpath, con.qualname)
+                fr.fnode = None if con.relpath == "<lemma>" else src.func_node(con.relpath, con.qualname)
             except KeyError:
                 fr.fnode = None
             st.frames.append(fr)
@@ -1923,8 +1926,31 @@ class Interp:
                         raise Unsupported(f"heap field type {ftyp}")
         return out
 
+    def verify_lemma(self, con):
+        """a lemma: no code, requires |- ensures over the spec vocabulary"""
+        self.contract = con
+        self.obligations = []
+        self.path_counter = {}
+        for st in self.initial_states(con):
+            fr = st.frames[-1]
+            fr.spec = True
+            for nm, e in con.lets.items():
+                fr.locals[nm] = self.sv(st, parse_expr(e))
+            for nm, e in con.requires:
+                st.assume(self.truth(st, self.sv(st, parse_expr(e))))
+            self.cover_pre = getattr(self, "cover_pre", [])
+            self.cover_pre.append((con.qualname, list(st.pc)))
+            self.old_stack.append(st.snapshot())
+            for nm, e in con.ensures:
+                self.oblige(st, "lemma", nm, self.truth(st, self.sv(st, parse_expr(e))))
+            self.old_stack.pop()
+        self.n_paths = 1
+        return self.obligations
+
     def verify(self, con):
         """generate all obligations of one function under contract; returns list of Obligation"""
+        if getattr(con, "is_lemma", False):
+            return self.verify_lemma(con)
         self.contract = con
         self.obligations = []
         self.path_counter = {}
@@ -2026,7 +2052,7 @@ RAISED = _NoReturn()
 
 SPEC_BUILTINS = {
     "forall", "exists", "implies", "iff", "ite", "forall_int", "forall_live", "align_up", "pow2", "pymod", "byte",
-    "slen", "same_storage",
+    "slen", "same_storage", "same_obj",
 }
 PY_BUILTINS = {"len", "min", "max", "bool", "int", "range", "enumerate", "zip", "list", "tuple", "isinstance", "sum"}
 
